@@ -53,12 +53,17 @@ class InterestTreeNode:
             PendingIntEntry(future, param.lifetime,
                             param.can_be_prefix, param.must_be_fresh, implicit_sha256))
 
-    def nack_interest(self, nack_reason: int) -> bool:
+    def nack_interest(self, nack_reason: int, implicit_sha256: BinaryStr = b'') -> bool:
+        # Only the Interests with the nacked name are affected: same implicit digest component (or none)
+        remaining_entries = []
         for entry in self.pending_list:
+            if bytes(entry.implicit_sha256) != bytes(implicit_sha256):
+                remaining_entries.append(entry)
             # The future may already be cancelled by its timer or by the caller in the same loop turn
-            if not entry.future.done():
+            elif not entry.future.done():
                 entry.future.set_exception(InterestNack(nack_reason))
-        return True
+        self.pending_list = remaining_entries
+        return not remaining_entries
 
     def satisfy(self, data: DataTuple, is_prefix: bool) -> bool:
         unsatisfied_entries = []
